@@ -15,6 +15,8 @@ import (
 	"encoding/json"
 	"fmt"
 	"net/http"
+	"os"
+	"path/filepath"
 	"strings"
 	"time"
 
@@ -634,21 +636,37 @@ func numEq(a, b string) bool {
 const okCompletion = `{"id":"x","object":"chat.completion","model":"m1","choices":[{"index":0,"message":{"role":"assistant","content":"hello"},"finish_reason":"stop"}],"usage":{"prompt_tokens":1,"completion_tokens":1,"total_tokens":2}}`
 
 func endToEnd() {
-	if report.Shard != 1%report.NShards {
-		return
+	// once with the shipped defaults, once with the request inspector (off by default) switched on: it sits on the same path
+	if report.Shard == 1%report.NShards {
+		endToEndWith(false)
 	}
+	if report.Shard == 2%report.NShards {
+		endToEndWith(true)
+	}
+}
+
+func endToEndWith(inspector bool) {
 	be := stack.NewBackend("A", "openai-compatible", true)
 	defer be.Close()
 	const mixedModel = "Org/Mx-7B-Instruct-Q4_K_M"
 	be.ModelsBody = func() []byte { return stack.OpenAIModels("m1", mixedModel) }
 	be.SetFixed(stack.OK(okCompletion))
 	o, err := stack.Boot(stack.Opts{Engine: "sherpa", Balancer: "priority", ModelDiscovery: true, Endpoints: []stack.EP{{B: be, Priority: 100}},
-		Mutate: func(c *config.Config) { c.Translators.Anthropic.PassthroughEnabled = false }})
+		Mutate: func(c *config.Config) {
+			c.Translators.Anthropic.PassthroughEnabled = false
+			if inspector {
+				dir := filepath.Join(os.TempDir(), fmt.Sprintf("verif-c12-inspector-%d", os.Getpid()))
+				c.Translators.Anthropic.Inspector = config.InspectorConfig{Enabled: true, OutputDir: dir, SessionHeader: "X-Session-ID"}
+			}
+		}})
 	if err != nil {
 		res.Break("boot: %v", err)
 		return
 	}
 	defer o.Stop()
+	if inspector {
+		defer os.RemoveAll(filepath.Join(os.TempDir(), fmt.Sprintf("verif-c12-inspector-%d", os.Getpid())))
+	}
 	uFull := contents(userBlocks, 2, []string{"U-STR"})
 	aFull := contents(asstBlocks, 2, []string{"A-STR"})
 	var raws []string
@@ -675,7 +693,7 @@ func endToEnd() {
 		}
 		json.Unmarshal(r.Body, &doc)
 		if r.Status != 400 || doc.Type != "error" || doc.Error.Type == "" || len(be.Requests()) != 0 {
-			violate("invalid-request-not-400", map[string]any{"slice": "end-to-end"}, fmt.Sprintf("client: %s; backend requests: %d", r, len(be.Requests())), raw)
+			violate("invalid-request-not-400", map[string]any{"slice": "end-to-end", "inspector": inspector}, fmt.Sprintf("client: %s; backend requests: %d", r, len(be.Requests())), raw)
 		}
 	}
 	for ri, raw := range raws {
@@ -694,16 +712,16 @@ func endToEnd() {
 			continue // nothing to say upstream; whatever olla does with an empty conversation is not judged here
 		}
 		if len(reqs) != 1 {
-			violate("translated-request-not-sent", map[string]any{"slice": "end-to-end"}, fmt.Sprintf("client: %s; backend requests: %d", r, len(reqs)), raw)
+			violate("translated-request-not-sent", map[string]any{"slice": "end-to-end", "inspector": inspector}, fmt.Sprintf("client: %s; backend requests: %d", r, len(reqs)), raw)
 			continue
 		}
 		var doc map[string]any
 		if err := decodeNum(reqs[0].Body, &doc); err != nil {
-			violate("upstream-body-not-json", map[string]any{"slice": "end-to-end"}, string(reqs[0].Body), raw)
+			violate("upstream-body-not-json", map[string]any{"slice": "end-to-end", "inspector": inspector}, string(reqs[0].Body), raw)
 			continue
 		}
 		if gm, _ := doc["model"].(string); gm != wantModel {
-			violate("model-name-altered", map[string]any{"slice": "end-to-end"}, fmt.Sprintf("client asked for model %q, the backend was asked for %q", wantModel, gm), raw)
+			violate("model-name-altered", map[string]any{"slice": "end-to-end", "inspector": inspector}, fmt.Sprintf("client asked for model %q, the backend was asked for %q", wantModel, gm), raw)
 		}
 		act, _ := actual(doc)
 		if itemsStr(act) != itemsStr(exp) {
@@ -714,7 +732,7 @@ func endToEnd() {
 			if err == nil {
 				direct, _ := actual(out.OpenAIRequest)
 				if itemsStr(direct) != itemsStr(act) {
-					violate("handler-sends-something-else", map[string]any{"slice": "end-to-end"}, fmt.Sprintf("TransformRequest gives %s, the backend received %s", itemsStr(direct), itemsStr(act)), raw)
+					violate("handler-sends-something-else", map[string]any{"slice": "end-to-end", "inspector": inspector}, fmt.Sprintf("TransformRequest gives %s, the backend received %s", itemsStr(direct), itemsStr(act)), raw)
 				}
 			}
 		}
